@@ -155,17 +155,25 @@ class DBHandler:
 
         self.path.parent.mkdir(exist_ok=True, parents=True)
         self.connection = await aiosqlite.connect(self.path)
-        await self.connection.execute("PRAGMA foreign_keys = 1")
 
-        # Allows to read the database in parallel to a scan without causing delays or even losing data
-        # This setting is persistent for the database and leads to the creation of extra files
-        # See https://www.sqlite.org/wal.html for further information
-        await self.connection.execute("PRAGMA journal_mode = WAL")
+        try:
+            await self.connection.execute("PRAGMA foreign_keys = 1")
 
-        await self.connection.execute("PRAGMA busy_timeout = 10000")
+            # Allows to read the database in parallel to a scan without causing delays or even losing data
+            # This setting is persistent for the database and leads to the creation of extra files
+            # See https://www.sqlite.org/wal.html for further information
+            await self.connection.execute("PRAGMA journal_mode = WAL")
 
-        await self.connection.executescript(DB_SCHEMA)
-        await self.check_version()
+            await self.connection.execute("PRAGMA busy_timeout = 10000")
+
+            await self.connection.executescript(DB_SCHEMA)
+            await self.check_version()
+        except BaseException:
+            # Do not leave a half initialised handler behind: nobody would close the
+            # connection and its worker thread keeps the process from exiting.
+            connection, self.connection = self.connection, None
+            await connection.close()
+            raise
 
         # This queue is meant to be used for usage-heavy executes that are not time-sensitive, e.g. UDS messages
         self._execute_queue = asyncio.Queue()
